@@ -813,6 +813,22 @@ def c15(ctx):
             ctx.S("eav_setup fails for a defined mode", op=op, impl=c)
         if not valid and (parts[2] != "s1" or parts[3] != "mm1"):
             ctx.S("eav_setup with an undefined mode: wrong return code or eav_errstr does not report it", op=op, impl=c)
+    # the message always describes the latest call: validations of every kind of outcome (IDN failures included, real and injected)
+    # followed by a failed eav_setup, by eav_errstr, by a successful setup and another validation
+    hg = HistGen(ctx.rng)
+    scripts = []
+    kinds = [b"a@b.com", b"a@x.test", "invalid@\u2615.de".encode(), b"a@\xff.com", b"a@[1.2.3.4]", b"bad", b"a@b", b'"a b"@b.ru', "ж@почта.рф".encode(), b"a@x.zzzz"]
+    for a in kinds:
+        for bad_rfc in (7, -1):
+            for m0 in (6531, 5321):
+                scripts.append("i;r%d;s;e%s;m;r%d;s;m;m;r%d;s;m;e%s;m;f" % (m0, hx(a), bad_rfc, m0, hx(b"a@b.com")))
+                scripts.append("i;r%d;s;e%s;r%d;s;m;e%s;m;f" % (m0, hx(a), bad_rfc, hx(a)))
+        for rc in IDN_RCS[::5]:
+            scripts.append("i;s;x%d,1;e%s;m;x0;r7;s;m;r6531;s;e%s;m;f" % (rc, hx(a), hx(a)))
+    for n in ([10, 40] if ctx.tier == "quick" else [10, 40, 100]):
+        for _ in range(40 if ctx.tier == "quick" else 400):
+            scripts.append(hg.random_history(n, H_ADDRS + kinds, inject=True))
+    check_histories(ctx, "errstr-history", list(dict.fromkeys(scripts)))
     ctx.extra_cov["error_codes_produced"] = sorted(seen_codes)
     missing = sorted(set(range(0, 36)) - seen_codes - {1})
     ctx.extra_cov["error_codes_not_produced"] = missing
